@@ -119,13 +119,20 @@ inductive AppendRes
   | panic             -- `envHeader[:envelopeHeaderLen]` with a database name longer than 255 bytes
 deriving Repr
 
-def appendRaw (ts : Nat) (p : Bytes) : AppendRes :=
-  if p.length > maxPayload then .tooLarge else .ok ⟨ts, p⟩
+/-- `AppendRaw` with the size limit as a parameter: compares the length it writes. -/
+def appendRawL (lim ts : Nat) (p : Bytes) : AppendRes :=
+  if p.length > lim then .tooLarge else .ok ⟨ts, p⟩
 
-def appendRawWithMeta (ts : Nat) (db p : Bytes) : AppendRes :=
-  if 3 + db.length + p.length > maxPayload then .tooLarge
+/-- `AppendRawWithMeta` with the size limit as a parameter: compares `totalPayloadLen` =
+envelope header + caller's bytes = the length it writes. -/
+def appendRawWithMetaL (lim ts : Nat) (db p : Bytes) : AppendRes :=
+  if 3 + db.length + p.length > lim then .tooLarge
   else if db.length > 255 then .panic
   else .ok ⟨ts, envelope db p⟩
+
+def appendRaw (ts : Nat) (p : Bytes) : AppendRes := appendRawL maxPayload ts p
+
+def appendRawWithMeta (ts : Nat) (db p : Bytes) : AppendRes := appendRawWithMetaL maxPayload ts db p
 
 /-- Size-based rotation of `writeEntry`: after an entry is written, `currentSize ≥ MaxSizeBytes`
 starts a new file (whose size starts at the 7 header bytes). Returns the entries of each file in
